@@ -9,7 +9,7 @@ import (
 // Skeleton programs for dependency / fork shapes that the purely random
 // generator reaches rarely.  Types and literal values are still random.
 
-const NTemplates = 21
+const NTemplates = 22
 
 // NFileTemplates file-passing skeletons follow the NTemplates dataflow ones.
 const NFileTemplates = 12
@@ -608,6 +608,30 @@ func Template(kind int, seed int64, cfg *Config) *Program {
 				{Callee: "SEEM", Binds: []Binding{{Id: "a", Exp: ref("WORK_PROJ", "y")}, {Id: "b", Exp: ref("WORK_PLAIN", "y")}}},
 			},
 			Ret: []Binding{{Id: "proj", Exp: ref("WORK_PROJ", "y")}, {Id: "plain", Exp: ref("WORK_PLAIN", "y")}, {Id: "n", Exp: ref("SEEM", "n")}}}
+		p.Pipelines = []*Pipeline{top}
+	case 21:
+		// run-time values of a wide struct in two-dimensional arrays, arrays and
+		// typed maps of arrays, bound to parameters and outputs of a narrower
+		// struct (the extra member must be dropped everywhere); two producers,
+		// whose last rows the checks force to be empty resp. null
+		p.Structs = append(p.Structs, &Struct{Name: "WIDE", Fields: []Param{{Name: "a", Type: TInt}, {Name: "b", Type: TString}, {Name: "extra", Type: TInt}}},
+			&Struct{Name: "SMALL", Fields: []Param{{Name: "a", Type: TInt}, {Name: "b", Type: TString}}})
+		wide, small := &Type{Kind: KStruct, Name: "WIDE"}, &Type{Kind: KStruct, Name: "SMALL"}
+		mkw := src(&Stage{Name: "MKW", Ins: []Param{{Name: "seed", Type: TInt}},
+			Outs: []Param{{Name: "grid", Type: ArrayOf(ArrayOf(wide))}, {Name: "rows", Type: ArrayOf(wide)}, {Name: "mg", Type: TMapOf(ArrayOf(wide))}, {Name: "cube", Type: ArrayOf(ArrayOf(ArrayOf(wide)))}}})
+		seen := src(&Stage{Name: "SEEN", Ins: []Param{{Name: "g", Type: ArrayOf(ArrayOf(small))}, {Name: "r", Type: ArrayOf(small)}, {Name: "m", Type: TMapOf(ArrayOf(small))}, {Name: "c", Type: ArrayOf(ArrayOf(ArrayOf(small)))}},
+			Outs: []Param{{Name: "n", Type: TInt}}})
+		p.Stages = []*Stage{mkw, seen}
+		top := &Pipeline{Name: "TOP"}
+		for k, nm := range []string{"E", "N"} {
+			mk, se := "MKW_"+nm, "SEEN_"+nm
+			top.Calls = append(top.Calls,
+				&Call{Callee: "MKW", Alias: mk, Binds: []Binding{{Id: "seed", Exp: lit(s1 + int64(k))}}},
+				&Call{Callee: "SEEN", Alias: se, Binds: []Binding{{Id: "g", Exp: ref(mk, "grid")}, {Id: "r", Exp: ref(mk, "rows")}, {Id: "m", Exp: ref(mk, "mg")}, {Id: "c", Exp: ref(mk, "cube")}}})
+			lo := strings.ToLower(nm)
+			top.Outs = append(top.Outs, Param{Name: "g" + lo, Type: ArrayOf(ArrayOf(small))}, Param{Name: "m" + lo, Type: TMapOf(ArrayOf(small))})
+			top.Ret = append(top.Ret, Binding{Id: "g" + lo, Exp: ref(mk, "grid")}, Binding{Id: "m" + lo, Exp: ref(mk, "mg")})
+		}
 		p.Pipelines = []*Pipeline{top}
 	default:
 		fk := kind - NTemplates // file-passing skeleton number
